@@ -1,8 +1,11 @@
 package main
 
 import (
+	"context"
+
 	"github.com/enfein/mieru/v3/apis/constant"
 	"github.com/enfein/mieru/v3/pkg/appctl/appctlpb"
+	"github.com/enfein/mieru/v3/pkg/egress"
 	"github.com/enfein/mieru/v3/pkg/socks5"
 )
 
@@ -18,7 +21,27 @@ func c12Flat(names []string) []int64 {
 	return out
 }
 
+// c12ProbeDomainLiteral reports whether the tree contains fixes/C12-domain-literal.diff: a CONNECT of the
+// unknown user to the domain-typed literal "127.0.0.1" and to "localhost." is refused.
+func c12ProbeDomainLiteral() int64 {
+	s, err := socks5.New(&socks5.Config{})
+	if err != nil {
+		panic(err)
+	}
+	refused := func(host string) bool {
+		data := append([]byte{constant.Socks5Version, constant.Socks5ConnectCmd, 0, constant.Socks5FQDNAddress, byte(len(host))}, host...)
+		data = append(data, 0, 80)
+		in := egress.Input{Protocol: appctlpb.ProxyProtocol_SOCKS5_PROXY_PROTOCOL, Data: data}
+		return s.FindAction(context.Background(), in).Action == appctlpb.EgressAction_REJECT
+	}
+	if refused("127.0.0.1") && refused("localhost.") {
+		return 1
+	}
+	return 0
+}
+
 func init() {
+	z("C12_fixDomainLiteral", c12ProbeDomainLiteral())
 	z("C12_Socks5Version", int64(constant.Socks5Version))
 	z("C12_ConnectCmd", int64(constant.Socks5ConnectCmd))
 	z("C12_UDPAssociateCmd", int64(constant.Socks5UDPAssociateCmd))
